@@ -17,8 +17,33 @@ from . import build, engine, wire
 MODES = ("sync", "async")
 
 
+ORDER_FREE = False
+
+
+def set_case(case: dict) -> None:
+    """a coercer that turns a *set* into a sequence makes element order depend on the set object's
+    iteration order, which differs between the object validated in context and the equal object an oracle
+    rebuilds to run a child alone: for such cases results are compared modulo sequence order"""
+    global ORDER_FREE
+    ORDER_FREE = '"tupleFromAny"' in json.dumps([case.get("v"), case.get("env")])
+
+
 def norm(x: Any) -> Any:
-    return wire.normalise(x)
+    return sort_seqs(wire.normalise(x)) if ORDER_FREE else wire.normalise(x)
+
+
+def sort_seqs(x: Any) -> Any:
+    """forget the order of every list / tuple value (used when the order was decided by iterating a set)"""
+    if isinstance(x, dict):
+        y = {k: sort_seqs(v) for k, v in x.items()}
+        if y.get("t") in ("list", "tuple") and isinstance(y.get("xs"), list):
+            y["xs"] = sorted(y["xs"], key=lambda e: json.dumps(e, sort_keys=True))
+        return y
+    if isinstance(x, list):
+        return [sort_seqs(v) for v in x]
+    return x
+
+
 
 
 def run_alone(vdesc: dict, env: List[dict], xdesc: dict, mode: str) -> dict:
